@@ -103,9 +103,9 @@ pub fn exec_main() -> i32 {
             return 2;
         }
     };
-    // backstop only: a run that makes no progress for 30 s is reported as a hang
+    // backstop only: a run that makes no progress for 120 s is reported as a hang
     std::thread::spawn(|| {
-        std::thread::sleep(std::time::Duration::from_secs(30));
+        std::thread::sleep(std::time::Duration::from_secs(120));
         eprintln!("HANG");
         std::process::exit(3);
     });
@@ -139,7 +139,7 @@ fn run_child(case: &Case) -> Result<History, Failure> {
     let stderr = String::from_utf8_lossy(&out.stderr);
     match out.status.code() {
         Some(0) => {}
-        Some(3) => return Err(Failure::new("hang", "C19 hang", "the process made no progress for 30 s".to_string())),
+        Some(3) => return Err(Failure::new("hang", "C19 hang", "the process made no progress for 120 s".to_string())),
         Some(2) => return Err(Failure::new("harness-child", "C19 harness-child", String::from_utf8_lossy(&out.stdout).to_string())),
         other => {
             let line = stderr.lines().find(|l| l.starts_with("ALLOC-ABORT")).unwrap_or("").to_string();
